@@ -1136,13 +1136,20 @@ impl<'m> FromMeta<'m> for ProtoSprite<'m> {
 }
 
 fn gather_script_ids(ast: &ast::ScriptFile, ctx: &mut CompilerContext) -> Result<IndexMap<Ident, (Sp<ResIdent>, Sp<i32>)>, ErrorReported> {
-    let mut next_auto_script = 0;
+    let mut next_auto_script = Some(0);
     let mut script_ids = IndexMap::new();
     for item in &ast.items {
         match &item.value {
             &ast::Item::Script { number, ref ident, .. } => {
-                let script_id = number.unwrap_or(sp!(ident.span => next_auto_script));
-                next_auto_script = script_id.value + 1;
+                let script_id = match (number, next_auto_script) {
+                    (Some(number), _) => number,
+                    (None, Some(auto)) => sp!(ident.span => auto),
+                    (None, None) => return Err(ctx.emitter.emit(error!(
+                        message("script number out of range"),
+                        primary(ident, "no script number left after {}", i32::MAX),
+                    ))),
+                };
+                next_auto_script = script_id.value.checked_add(1);
 
                 // give a better error on redefinitions than the generic "ambiguous auto const" message
                 match script_ids.entry(ident.value.clone()) {
